@@ -52,3 +52,11 @@ chk('C05', 'model_checking',
     'One connector per router (other connectors\' endpoints are not obstacles in the statement). With direction restrictions the oracle is "no cheaper route on the Hanan grid". '
     'F22 (direction-restricted endpoints give non-minimal routes) is a known finding.',
     'TLA+ path model; trace validation of routes; TLC refutation search seeded with the implementation\'s cost', '4/C05')
+
+chk('C04', 'model_checking',
+    'PolyPath.tla: Visible(p,q) is the textbook definition (open segment meets no open obstacle interior, exact rational clipping); B2: every segment of every recorded raw route must be Visible '
+    'and the route must join the endpoints; B3: TLC searches the visibility graph of obstacle corners for a route whose upper length bound is below the lower bound of the implementation\'s route '
+    '(integer-square-root intervals at 2^-11); with P>0 over taut paths with P per bend. Scenes: TLC-enumerated sets of <=2 separated convex obstacles (rectangles, right triangles, diamonds), '
+    'free-space endpoints, P in {0,3,10}.',
+    'Length resolution ~1e-3 (the statement asks 1e-6): shorter detours are not detected. P>0 optimality is over taut paths (DESIGN 1, reading (a)). One connector per router.',
+    'TLA+ visibility-graph path model; trace validation of routes; TLC refutation search seeded with the implementation\'s length', '4/C04')
